@@ -1,5 +1,5 @@
 import TF.Proofs.NttFinal
-import TF.Proofs.GenBridgeNtt
+import TF.Proofs.GenBridgeNtt2
 /-!
 # C06 — NTT is the discrete Fourier transform over the field; INTT is its inverse
 
@@ -242,10 +242,15 @@ Proved here (proofs in `TF/Proofs/GenBridgeNtt.lean`), for every `ops`:
 * `gen_butterfly_block_pointwise`: the in-place inner loop, pointwise in terms of the slice before the loop (each index
   pair written once) — the block-level content of "in-place loop = functional stage".
 
-Not yet proved, stated as `gen_ntt_unchecked_statement` (a `_partial` entry): the composition over the `while k < len` block
-loop (fuel `len + 1` suffices) and the stage loop, and the identification of the block formula with the model's `stage`
-(`Array.ofFn`, twiddle table `powers`); that part stays tied by the driver's side-by-side evaluation and the
-correspondence check. -/
+* `gen_ntt_unchecked_eq_model`, `gen_intt_noswap_eq_model`, `gen_bitreverse_order_eq_model` (proofs in
+  `TF/Proofs/GenBridgeNtt2.lean`): the composition over the `while k < len { ..; k += 2 * m }` block loop (invariant: blocks
+  below `k` hold the stage formula of the slice before the stage, the rest is untouched; `#blocks + 1` evaluations of the
+  loop head suffice), the identification of the result with the model's `stage` (`Array.ofFn`, twiddle table `powers` =
+  repeated `w *= w_m`), the stage loop = `stagesLoop`, the `logn` loops = `ceilLog2`.  **The step from the in-place Rust
+  loops to the functional stages is proved, not tied by correspondence.**  The statements have the form
+  `(gen x).bind (fun r => if gen_ok x then some r else none) = (model x).map Array.toList`: the left side is `none` when the
+  regenerated function runs out of fuel (never, that is part of what is proved) or when its `_ok` twin is false (an index
+  out of range, an arithmetic overflow, an `unwrap` of `None` — a panic), the right side is `none` when the model panics. -/
 namespace TF.C06
 open TF.Gen TF.Model.Ntt
 
@@ -309,20 +314,78 @@ theorem gen_butterfly_block_pointwise {σ α : Type} (ops : Ops σ α) (m : Nat)
   simp only [Nat.add_zero]
 example : TF.GenBridge.Ntt.wp bOps 5 1 2 = 25 := by decide
 
-/-- the full bridge (not yet proved): the regenerated `ntt_unchecked` finishes within its fuel, panics exactly when the
-    model does and returns the model's result -/
-def gen_ntt_unchecked_statement : Prop :=
-  ∀ {σ α : Type} (ops : Ops σ α) (x : Array α) (omega : σ) (log : Nat), log ≤ 31 → x.size = 2 ^ log →
+/-- **`ntt_unchecked` regenerated from source = the model** (bit-reversal swap loop, then one functional `Array.ofFn` pass
+    per stage), for every `ops`, every `ω`, every `log ≤ 31` and every vector of length `2^log` (the only way `ntt`/`intt`
+    call it, besides the empty slice): the regenerated function finishes within its fuel, panics exactly when the model
+    does, and returns the model's result.  (`log = 32` is excluded because `x.len() as u32` is then `0`.) -/
+theorem gen_ntt_unchecked_eq_model {σ α : Type} (ops : Ops σ α) (x : Array α) (omega : σ) (log : Nat) (hl : log ≤ 31)
+    (hx : x.size = 2 ^ log) :
     (Loops.ntt_unchecked ops x.toList omega log).bind
         (fun r => if Loops.ntt_unchecked_ok ops x.toList omega log then some r else none)
-      = (nttUnchecked ops x omega log).map Array.toList
+      = (nttUnchecked ops x omega log).map Array.toList :=
+  TF.GenBridge.Ntt.gen_ntt_unchecked_eq ops x omega log hl hx
+example : Loops.ntt_unchecked bOps [1, 4, 0, 0] 281474976710656 2 =
+    some [5, 1125899906842625, 18446744069414584318, 18445618169507741698] ∧
+    Loops.ntt_unchecked_ok bOps [1, 4, 0, 0] 281474976710656 2 = true := by decide +kernel
 
-/-- what is proved of `gen_ntt_unchecked_statement`: its first phase (the swap loop) and the innermost loop of its second
-    phase, for the code as it is in the source now -/
-theorem gen_ntt_unchecked_partial {σ α : Type} (ops : Ops σ α) (x : Array α) (log : Nat) (hl : log ≤ 32) :
-    (if Loops.ntt_unchecked_for_ok ops log x.size 0 x.toList then some (Loops.ntt_unchecked_for ops log x.size 0 x.toList)
-      else none) = (bitrevPermute x log).map Array.toList :=
-  TF.GenBridge.Ntt.unchecked_for_eq ops log hl x.size 0 x
-example : (bitrevPermute #[10, 11, 12, 13] 2).map Array.toList = some [10, 12, 11, 13] := by decide
+/-- the empty slice: `ntt_unchecked(x, ω, 0)` does nothing on either side -/
+theorem gen_ntt_unchecked_empty {σ α : Type} (ops : Ops σ α) (omega : σ) :
+    Loops.ntt_unchecked ops ([] : List α) omega 0 = some [] ∧ Loops.ntt_unchecked_ok ops ([] : List α) omega 0 = true ∧
+    nttUnchecked ops (#[] : Array α) omega 0 = some #[] :=
+  TF.GenBridge.Ntt.gen_ntt_unchecked_empty ops omega
+example : Loops.ntt_unchecked bOps [] 1 0 = some [] := by decide
+
+/-- one stage of the source's in-place loops is the model's functional stage: after the regenerated block loop
+    `while k < len { for j in 0..m { .. }; k += 2 * m }` over a slice of `B` blocks of size `2m` the slice is
+    `stage ops m (powers ops w_m m) a` — within `B + 1` evaluations of the loop head, with no overflow -/
+theorem gen_block_loop_eq_stage {σ α : Type} (ops : Ops σ α) (m : Nat) (hm : 0 < m) (w_m : σ) (a : Array α) (B : Nat)
+    (hlen : a.size = B * (2 * m)) (hU : a.size < 4294967296) (fuel : Nat) (hf : B + 1 ≤ fuel) :
+    Loops.ntt_unchecked_loop3 ops a.size m w_m fuel a.toList 0 = some ((stage ops m (powers ops w_m m) a).toList, a.size) ∧
+    Loops.ntt_unchecked_loop3_ok ops a.size m w_m fuel a.toList 0 = true := by
+  obtain ⟨z, hz, hzok, hzi⟩ := TF.GenBridge.Ntt.unchecked_loop3_eq ops m hm w_m a.toList B (by simpa using hlen)
+    (by simpa using hU) a.size (by simp) B 0 a.toList (by omega) (TF.GenBridge.Ntt.blockInv_zero _ _ _ _) fuel hf
+  rw [Nat.zero_mul] at hz hzok
+  rw [← TF.GenBridge.Ntt.blockInv_full ops m hm w_m a B hlen z hzi]
+  exact ⟨hz, hzok⟩
+example : Loops.ntt_unchecked_loop3 bOps 4 1 1 3 [1, 2, 3, 4] 0 = some ([3, 18446744069414584320, 7, 18446744069414584320], 4) := by
+  decide +kernel
+
+/-- **`intt_noswap` regenerated from source = the model** for *every* vector, every `ops`, and every root look-up that is
+    defined only on `0` and the powers of two up to `2^32` (as `BFieldElement::primitive_root_of_unity` is —
+    `primitive_roots_table`): same panics (`unwrap` of a missing root on every other length, `inverse` of zero), finishes
+    within its fuel, same values -/
+theorem gen_intt_noswap_eq_model {σ α : Type} (ops : Ops σ α) (root : Nat → Option σ)
+    (hroot : ∀ n, (root n).isSome = true → n = 0 ∨ ∃ L, L ≤ 32 ∧ n = 2 ^ L) (x : Array α) :
+    (Loops.intt_noswap ops root x.toList).bind
+        (fun r => if Loops.intt_noswap_ok ops root x.toList then some r else none)
+      = (inttNoswap ops root x).map Array.toList :=
+  TF.GenBridge.Ntt.gen_intt_noswap_eq_all ops root hroot x
+example : ∀ n, (primitiveRoot n).isSome = true → n = 0 ∨ ∃ L, L ≤ 32 ∧ n = 2 ^ L := by
+  intro n h
+  obtain ⟨r, hr⟩ := Option.isSome_iff_exists.mp h
+  rcases primitive_roots_table n r (primitive_root_is_entry n r hr) with ⟨h0, _⟩ | ⟨k, hk, hn, _⟩
+  · exact Or.inl h0
+  · exact Or.inr ⟨k, hk, hn⟩
+
+/-- the same for a fixed length `2^L`, `L ≤ 32`, with an arbitrary root look-up -/
+theorem gen_intt_noswap_eq_model_pow2 {σ α : Type} (ops : Ops σ α) (root : Nat → Option σ) (x : Array α) (L : Nat)
+    (hL : L ≤ 32) (hx : x.size = 2 ^ L) :
+    (Loops.intt_noswap ops root x.toList).bind
+        (fun r => if Loops.intt_noswap_ok ops root x.toList then some r else none)
+      = (inttNoswap ops root x).map Array.toList :=
+  TF.GenBridge.Ntt.gen_intt_noswap_eq ops root x L hL hx
+example : Loops.intt_noswap bOps primitiveRoot [5, 18446744069414584318, 1125899906842625, 18445618169507741698]
+    = some [4, 16, 0, 0] := by decide +kernel
+
+/-- **`bitreverse_order` regenerated from source = the model**, every array of length `≤ 2^63`, every `ops`: the `logn`
+    loop finishes within 65 evaluations of its head without a shift overflow and yields `⌈log₂ len⌉`; the swap loop agrees
+    in value and in panic (a swap target beyond the end, on lengths that are not a power of two) -/
+theorem gen_bitreverse_order_eq_model {σ α : Type} (ops : Ops σ α) (a : Array α) (ha : a.size ≤ 2 ^ 63) :
+    (Loops.ntt_bitreverse_order ops a.toList).bind
+        (fun r => if Loops.ntt_bitreverse_order_ok ops a.toList then some r else none)
+      = (bitreverseOrder a).map Array.toList :=
+  TF.GenBridge.Ntt.gen_bitreverse_order_eq ops a ha
+example : Loops.ntt_bitreverse_order bOps [0, 1, 2, 3, 4, 5, 6, 7] = some [0, 4, 2, 6, 1, 5, 3, 7] ∧
+    Loops.ntt_bitreverse_order_ok bOps [0, 1, 2, 3, 4] = false ∧ bitreverseOrder #[0, 1, 2, 3, 4] = none := by decide +kernel
 
 end TF.C06
